@@ -38,6 +38,7 @@ type Conn struct {
 	ParseErr  error
 	WriteErrN int // writes that returned an error on this connection
 	credits   []creditEv
+	rdlSetCur int  // bytes handed out when the read deadline was last set
 	stalled   bool // a write timed out without progress: nothing may follow
 	WriteAfterFail bool
 	Sent      []SentPkt
@@ -176,6 +177,7 @@ func (c *Conn) SetReadDeadline(t time.Time) error {
 		return c.errClosed("set")
 	}
 	c.rdl = t
+	c.rdlSetCur = c.rdCur
 	return nil
 }
 func (c *Conn) SetWriteDeadline(t time.Time) error {
@@ -282,6 +284,9 @@ type NetOpts struct {
 	DialFail    int // permille
 	DialHang    int // permille (needs a deadline on the context)
 	OneByteRead int // permille: among short reads, deliver a single byte
+	// ExpiryNeedsProgress restricts injected read expiries to those that saw
+	// at least one byte since the deadline was set (C06: no error expected)
+	ExpiryNeedsProgress bool
 }
 
 func (s *Sim) readAction(p *park) (Action, bool) {
@@ -307,7 +312,10 @@ func (s *Sim) readAction(p *park) (Action, bool) {
 		k := av
 		// a deadline may pass although bytes are under way (stall); only
 		// when the deadline is armed
-		if !c.rdl.IsZero() && w.FaultOK() && w.Tape.Flip("rexp", o.ReadExpiry) {
+		if !c.rdl.IsZero() && w.FaultOK() && (!o.ExpiryNeedsProgress || (c.rdCur > c.rdlSetCur && c.ConnackStep != 0)) && w.Tape.Flip("rexp", o.ReadExpiry) {
+			if c.rdCur > c.rdlSetCur {
+				w.Probe("progress_making_expiry")
+			}
 			w.Fault("read_expiry")
 			if d := time.Until(c.rdl); d > 0 {
 				s.sleepExact(d)
@@ -337,6 +345,7 @@ func (s *Sim) readAction(p *park) (Action, bool) {
 // sleepExact advances simulated time by d regardless of other goroutines
 // reaching park points meanwhile.
 func (s *Sim) sleepExact(d time.Duration) {
+	s.TickTime += d
 	end := time.Now().Add(d)
 	for {
 		left := time.Until(end)
